@@ -82,6 +82,41 @@ pub use crate::removal_evaluator;
 //@import remover_new
 //@import remove
 //@import get_removed_pos
+//@import build_remove_marker
+//@import build_remove_marker_all
+}
+
+/// stand-in for the serde_json dependency (not verified): to_string is an uninterpreted function of the value
+pub mod serde_json {
+use super::*;
+pub struct Error { pub dummy: u8 }
+pub uninterp spec fn json_of<T>(v: T) -> Result<Seq<char>, Error>;
+#[verifier::external_body]
+pub fn to_string<T>(v: &T) -> (r: Result<String, Error>)
+    ensures (match r { Ok(s) => Ok::<Seq<char>, Error>(s@), Err(e) => Err::<Seq<char>, Error>(e) }) == json_of(*v),
+{ unimplemented!() }
+}
+
+pub mod list_fns {
+use super::*;
+use crate::remover::RemoveMarker;
+//@include line_map_vocab.vs
+//@import build_line_map
+//@import find_line
+//@item file=code/list.rs kind=enum name=ItemStatus
+//@item file=code/list.rs kind=struct name=ListItem
+//@include list_vocab.vs
+//@import build_list
+/// the text build_pretty_string renders for a marker list (uninterpreted: C16 is not decided)
+pub uninterp spec fn pretty_text(content: Seq<char>, markers: Seq<(RemoveMarker, bool)>, lm: Option<Seq<usize>>) -> Seq<char>;
+//@fn id=build_pretty_string file=code/list.rs name=build_pretty_string props=C15,C17 stub=only trusted="ASSUMED: build_pretty_string (zip/map/collect into a String around build_pretty_string_item) is a pure function pretty_text of its arguments and returns normally for markers inside the content on character boundaries; layout (C16) and panic-freedom of the renderer are not decided"
+//@ret r
+//@requires
+    markers_renderable(content.spec_bytes(), markers@),
+    line_map matches Some(m) ==> m@.len() < usize::MAX,
+//@ensures label=pretty_text_is_a_function_of_the_arguments
+    r@ == pretty_text(content@, markers@, lm_view(line_map)),
+//@end
 }
 
 pub mod formatter {
@@ -182,6 +217,10 @@ use std::{collections::{HashMap, HashSet}, rc::Rc};
 //@item file=chiritori.rs kind=struct name=ChiritoriConfiguration
 //@item file=chiritori.rs kind=struct name=TimeLimitedConfiguration
 //@item file=chiritori.rs kind=struct name=RemovalMarkerConfiguration
+//@item file=chiritori.rs kind=enum name=ListFormat
+//@item file=chiritori.rs kind=enum name=ListError
+use crate::list_fns::*;
+use crate::serde_json;
 
 //@fn id=build_formatters file=chiritori.rs name=build_formatters props=C01,C13,C14
 //@ret r
@@ -442,4 +481,296 @@ pub proof fn lemma_removed_pos_eq(mk: Seq<RemoveMarker>, rp: Seq<crate::RemovedM
     }
 //@end
 
+
+// ---- the listing entry points (C15 / C17): same front end as clean, markers handed to the (unverified) renderers ----
+/// tokens, parse tree and remover are those of the configured pipeline (as in clean_pipeline)
+pub open spec fn front_end(cs: Seq<char>, ds: Seq<char>, de: Seq<char>, config: ChiritoriConfiguration,
+        ts: Seq<crate::tokenizer::Token>, r: Remover, parts: Seq<crate::parser::ContentPart>) -> bool {
+    let b = encode_utf8(cs);
+    &&& crate::tokenizer_fns::tvs(ts) == crate::tokenizer_fns::tokenize_spec(cs, ds, de)
+    &&& crate::tokenizer_fns::tok_chain(ts, cs, cs.len() as int)
+    &&& crate::flatten(parts) == ts
+    &&& crate::gp(parts) == crate::stack_parse(ts, crate::tok_nm())
+    &&& configured(r, config, b)
+    &&& parts_wf(parts, 0, b.len() as int)
+}
+pub open spec fn ready_flagged(m: Seq<RemoveMarker>) -> Seq<(RemoveMarker, bool)> { Seq::new(m.len(), |i: int| (m[i], true)) }
+/// what the two output formats are, as functions of the marker list (text rendering and JSON encoding are uninterpreted)
+pub open spec fn list_result(cs: Seq<char>, fmt: ListFormat, markers: Seq<(RemoveMarker, bool)>, out: Result<String, ListError>) -> bool {
+    let lm = Some(lf_positions(cs, cs.len() as int));
+    match fmt {
+        ListFormat::PrettyString => out matches Ok(s) && s@ == pretty_text(cs, markers, lm),
+        ListFormat::JSON => exists|items: Vec<ListItem>| #![trigger items@] items@.len() == markers.len()
+            && (forall|i: int| 0 <= i < items@.len() ==> list_item_ok(cs, markers[i], lm, #[trigger] items@[i]))
+            && (match serde_json::json_of(items) { Ok(s) => out matches Ok(o) && o@ == s, Err(_) => out is Err }),
+    }
+}
+/// C15: the plain listing renders exactly the markers clean deletes (mm_spec of the ready forest), all flagged Ready
+pub open spec fn list_post(cs: Seq<char>, ds: Seq<char>, de: Seq<char>, config: ChiritoriConfiguration, fmt: ListFormat, out: Result<String, ListError>) -> bool {
+    exists|ts: Seq<crate::tokenizer::Token>, r: Remover, parts: Seq<crate::parser::ContentPart>|
+        #[trigger] front_end(cs, ds, de, config, ts, r, parts)
+        && list_result(cs, fmt, ready_flagged(mm_spec(collect_spec(r, parts, false).0)), out)
+}
+/// C17: the full listing renders merge_all_final(ready markers, pending markers)
+pub open spec fn list_all_post(cs: Seq<char>, ds: Seq<char>, de: Seq<char>, config: ChiritoriConfiguration, fmt: ListFormat, out: Result<String, ListError>) -> bool {
+    exists|ts: Seq<crate::tokenizer::Token>, r: Remover, parts: Seq<crate::parser::ContentPart>|
+        #[trigger] front_end(cs, ds, de, config, ts, r, parts)
+        && list_result(cs, fmt, merge_all_final(mm_spec(collect_spec(r, parts, true).0), mm_spec(collect_spec(r, parts, true).1)), out)
+}
+pub open spec fn marker_ok(b: Seq<u8>, m: RemoveMarker) -> bool {
+    m.0.start <= m.0.end <= b.len() && m.0.end >= 1 && cb(b, m.0.start as int) && cb(b, m.0.end as int)
+}
+pub proof fn lemma_markers_ok(f: Seq<GTree>, b: Seq<u8>, lo: int, hi: int)
+    requires wf_forest(f, lo, hi), forest_on_b(f, b),
+    ensures forall|i: int| 0 <= i < mm_spec(f).len() ==> marker_ok(b, #[trigger] mm_spec(f)[i]),
+{
+    let mk = mm_spec(f);
+    lemma_mm_core(f, lo, hi);
+    lemma_mm_endpoints(f, lo, hi);
+    lemma_mm_end_pos(f, lo, hi);
+    assert forall|i: int| 0 <= i < mk.len() implies marker_ok(b, #[trigger] mk[i]) by {
+        assert(forest_endpoint(f, mk[i].0.start) && forest_endpoint(f, mk[i].0.end));
+        assert(pos_ok(b, mk[i].0.start) && pos_ok(b, mk[i].0.end));
+    }
+}
+
+pub proof fn lemma_ready_renderable(b: Seq<u8>, mk: Seq<RemoveMarker>)
+    requires forall|i: int| 0 <= i < mk.len() ==> marker_ok(b, #[trigger] mk[i]),
+    ensures markers_renderable(b, ready_flagged(mk)),
+{
+    let m = ready_flagged(mk);
+    assert forall|i: int| 0 <= i < m.len() implies (#[trigger] m[i]).0.0.start <= m[i].0.0.end <= b.len() && m[i].0.0.end >= 1
+        && cb(b, m[i].0.0.start as int) && cb(b, m[i].0.0.end as int) by {
+        assert(marker_ok(b, mk[i]));
+    }
+}
+pub proof fn lemma_ready_flagged_step(mk: Seq<RemoveMarker>, k: int)
+    requires 0 <= k < mk.len(),
+    ensures ready_flagged(mk).take(k + 1) == ready_flagged(mk).take(k).push((mk[k], true)),
+            ready_flagged(mk).take(0) == Seq::<(RemoveMarker, bool)>::empty(),
+            ready_flagged(mk).take(mk.len() as int) == ready_flagged(mk),
+{
+    assert(ready_flagged(mk).take(k + 1) =~= ready_flagged(mk).take(k).push((mk[k], true)));
+    assert(ready_flagged(mk).take(0) =~= Seq::<(RemoveMarker, bool)>::empty());
+    assert(ready_flagged(mk).take(mk.len() as int) =~= ready_flagged(mk));
+}
+pub proof fn lemma_ready_flagged_ends(mk: Seq<RemoveMarker>)
+    ensures ready_flagged(mk).take(0) == Seq::<(RemoveMarker, bool)>::empty(),
+            ready_flagged(mk).take(mk.len() as int) == ready_flagged(mk),
+            ready_flagged(mk).len() == mk.len(),
+{
+    assert(ready_flagged(mk).take(0) =~= Seq::<(RemoveMarker, bool)>::empty());
+    assert(ready_flagged(mk).take(mk.len() as int) =~= ready_flagged(mk));
+}
+pub proof fn lemma_front_end(cs: Seq<char>, ds: Seq<char>, de: Seq<char>, config: ChiritoriConfiguration,
+        ts: Seq<crate::tokenizer::Token>, r: Remover, parts: Seq<crate::parser::ContentPart>)
+    requires
+        crate::tokenizer_fns::tvs(ts) == crate::tokenizer_fns::tokenize_spec(cs, ds, de),
+        crate::tokenizer_fns::tok_chain(ts, cs, cs.len() as int),
+        crate::flatten(parts) == ts,
+        crate::gp(parts) == crate::stack_parse(ts, crate::tok_nm()),
+        configured(r, config, encode_utf8(cs)),
+        parts_wf(parts, 0, encode_utf8(cs).len() as int),
+    ensures front_end(cs, ds, de, config, ts, r, parts),
+{}
+pub proof fn lemma_line_map_len(cs: Seq<char>)
+    requires encode_utf8(cs).len() <= isize::MAX,
+    ensures lf_positions(cs, cs.len() as int).len() < usize::MAX,
+{
+    lemma_lf_len(cs, cs.len() as int);
+    lemma_char_pos_mono(cs, 0, cs.len() as int);
+    assert(char_byte_pos(cs, cs.len() as int) == encode_utf8(cs).len());
+    // every character encodes to at least one byte
+    lemma_chars_le_bytes(cs, cs.len() as int);
+}
+pub proof fn lemma_chars_le_bytes(cs: Seq<char>, n: int)
+    requires 0 <= n <= cs.len(),
+    ensures n <= char_byte_pos(cs, n),
+    decreases n,
+{
+    if n > 0 {
+        lemma_chars_le_bytes(cs, n - 1);
+        lemma_char_pos_mono(cs, n - 1, n);
+    } else {
+        lemma_char_pos_mono(cs, 0, 0);
+    }
+}
+
+//@fn id=list file=chiritori.rs name=list props=C01,C15
+//@ret out
+//@requires
+    delimiters.0@.len() > 0,
+    delimiters.1@.len() > 0,
+//@ensures label=list_renders_the_markers_clean_deletes props=C15
+    list_post(content@, delimiters.0@, delimiters.1@, config, format, out),
+//@mapcollect 1 type="Vec<(RemoveMarker, bool)>"
+//@maperr
+//@loop 1 iter=it
+//@invariant
+    it.seq() == __mk,
+    __vM1@ == ready_flagged(__mk).take(it.index@),
+//@at body-start
+    hide(collect_spec); hide(mm_spec); hide(wf_forest); hide(forest_covered); hide(forest_endpoint); hide(forest_size); hide(parts_wf); hide(parts_on_b); hide(all_el_wf); hide(count_elements); hide(mm_post); hide(strategies_ok); hide(strategies_bounded); hide(markers_sorted); hide(pairs_consistent); hide(crate::tokenizer_fns::tok_chain); hide(crate::tokenizer_fns::toks_ok); hide(crate::tokenizer_fns::tokenize_spec); hide(crate::stack_parse); hide(crate::gp); hide(crate::flatten); hide(configured); hide(lf_positions); hide(front_end); hide(markers_renderable); hide(ready_flagged); hide(marker_ok); hide(list_item_ok); hide(forest_on_b);
+    let ghost b = encode_utf8(content@);
+    let ghost __cfg = config;
+    let ghost __ds = delimiters.0@;
+    let ghost __de = delimiters.1@;
+    proof { encode_utf8_valid_utf8(content@); axiom_rc_string_len_isize(content); }
+//@at before "let parsed = parser::parse"
+    proof { crate::axiom_token_vec_len(&tokens); }
+//@at before "let remover = build_remover"
+    proof {
+        crate::parser_fns::lemma_toks_seq_ok_all(tokens@, content@);
+        assert(toks_seq_ok(tokens@, b));
+        assert(tokens@.subrange(0, tokens@.len() as int) =~= tokens@);
+        lemma_parts_from_flatten(parsed@, tokens@, b, 0, tokens@.len() as int);
+        reveal(parts_wf);
+        assert(parts_wf(parsed@, 0, b.len() as int) && parts_on_b(parsed@, b) && all_el_wf(parsed@));
+    }
+//@at before "let markers: Vec<_> ="
+    let ghost parts = parsed@;
+    let ghost f = collect_spec(remover, parts, false).0;
+    let ghost __mk = mm_spec(f);
+    proof {
+        lemma_collect_wf(remover, parts, false, 0, b.len() as int);
+        lemma_collect_on_b(remover, parts, false, b);
+        lemma_collect_size(remover, parts, false);
+        lemma_count_elements(parts, 0, b.len() as int);
+        assert(wf_forest(f, -1, b.len() as int + 1));
+        assert(forest_on_b(f, b));
+        lemma_markers_ok(f, b, -1, b.len() as int + 1);
+        lemma_ready_renderable(b, __mk);
+        lemma_ready_flagged_ends(__mk);
+        lemma_front_end(content@, __ds, __de, __cfg, tokens@, remover, parts);
+    }
+//@at loop 1 end
+    proof { lemma_ready_flagged_step(__mk, it.index@); }
+//@at before "let line_map = build_line_map(&content);"
+    proof {
+        lemma_ready_flagged_ends(__mk);
+        assert(markers@ == ready_flagged(__mk));
+        assert(markers_renderable(b, markers@));
+        assert(front_end(content@, __ds, __de, __cfg, tokens@, remover, parts));
+    }
+//@at before "match format {"
+    proof {
+        assert(line_map@ == lf_positions(content@, content@.len() as int));
+        lemma_line_map_len(content@);
+    }
+//@end
+
+pub open spec fn all_ok(b: Seq<u8>, l: Seq<(RemoveMarker, bool)>) -> bool { forall|i: int| 0 <= i < l.len() ==> marker_ok(b, (#[trigger] l[i]).0) }
+pub proof fn lemma_all_ok_add(b: Seq<u8>, x: Seq<(RemoveMarker, bool)>, y: Seq<(RemoveMarker, bool)>)
+    requires all_ok(b, x), all_ok(b, y),
+    ensures all_ok(b, x + y),
+{
+    assert forall|i: int| 0 <= i < (x + y).len() implies marker_ok(b, (#[trigger] (x + y)[i]).0) by {
+        if i < x.len() { assert((x + y)[i] == x[i]); } else { assert((x + y)[i] == y[i - x.len()]); }
+    }
+}
+pub proof fn lemma_consume_pending_ok(b: Seq<u8>, r: Range<usize>, p: Seq<RemoveMarker>, c: int)
+    requires 0 <= c <= p.len(), forall|i: int| 0 <= i < p.len() ==> marker_ok(b, #[trigger] p[i]),
+    ensures all_ok(b, consume_pending(r, p, c).0), c <= consume_pending(r, p, c).1 <= p.len(),
+    decreases p.len() - c,
+{
+    if c < p.len() && p[c].0.start < r.end {
+        lemma_consume_pending_ok(b, r, p, c + 1);
+        let rest = consume_pending(r, p, c + 1);
+        let squash = rcontains(r, p[c].0.start) && rcontains(r, p[c].0.end);
+        let head = if squash { Seq::<(RemoveMarker, bool)>::empty() } else { seq![(p[c], false)] };
+        assert(all_ok(b, head)) by { if !squash { assert(marker_ok(b, p[c])); } }
+        lemma_all_ok_add(b, head, rest.0);
+    }
+}
+pub proof fn lemma_merge_all_ok(b: Seq<u8>, rs: Seq<RemoveMarker>, p: Seq<RemoveMarker>, n: int)
+    requires 0 <= n <= rs.len(),
+        forall|i: int| 0 <= i < rs.len() ==> marker_ok(b, #[trigger] rs[i]),
+        forall|i: int| 0 <= i < p.len() ==> marker_ok(b, #[trigger] p[i]),
+    ensures all_ok(b, merge_all(rs, p, n).0), 0 <= merge_all(rs, p, n).1 <= p.len(),
+    decreases n,
+{
+    if n > 0 {
+        lemma_merge_all_ok(b, rs, p, n - 1);
+        let prev = merge_all(rs, p, n - 1);
+        lemma_consume_pending_ok(b, rs[n - 1].0, p, prev.1);
+        let cp = consume_pending(rs[n - 1].0, p, prev.1);
+        lemma_all_ok_add(b, prev.0, cp.0);
+        assert(all_ok(b, seq![(rs[n - 1], true)])) by { assert(marker_ok(b, rs[n - 1])); }
+        lemma_all_ok_add(b, prev.0 + cp.0, seq![(rs[n - 1], true)]);
+    }
+}
+pub proof fn lemma_merge_all_final_renderable(b: Seq<u8>, rs: Seq<RemoveMarker>, p: Seq<RemoveMarker>)
+    requires
+        forall|i: int| 0 <= i < rs.len() ==> marker_ok(b, #[trigger] rs[i]),
+        forall|i: int| 0 <= i < p.len() ==> marker_ok(b, #[trigger] p[i]),
+    ensures markers_renderable(b, merge_all_final(rs, p)),
+{
+    let n = rs.len() as int;
+    lemma_merge_all_ok(b, rs, p, n);
+    let m = merge_all(rs, p, n);
+    let l = merge_all_final(rs, p);
+    if m.1 < p.len() {
+        let t = pending_tail(p, m.1);
+        assert(all_ok(b, t)) by { assert forall|i: int| 0 <= i < t.len() implies marker_ok(b, (#[trigger] t[i]).0) by { assert(marker_ok(b, p[m.1 + i])); } }
+        lemma_all_ok_add(b, m.0, t);
+    } else {
+        assert(m.0 + Seq::<(RemoveMarker, bool)>::empty() =~= m.0);
+    }
+    assert(all_ok(b, l));
+    assert forall|i: int| 0 <= i < l.len() implies (#[trigger] l[i]).0.0.start <= l[i].0.0.end <= b.len() && l[i].0.0.end >= 1
+        && cb(b, l[i].0.0.start as int) && cb(b, l[i].0.0.end as int) by {
+        assert(marker_ok(b, l[i].0));
+    }
+}
+
+//@fn id=list_all file=chiritori.rs name=list_all props=C01,C17
+//@ret out
+//@requires
+    delimiters.0@.len() > 0,
+    delimiters.1@.len() > 0,
+//@ensures label=list_all_renders_ready_and_outstanding_pending props=C17
+    list_all_post(content@, delimiters.0@, delimiters.1@, config, format, out),
+//@maperr
+//@at body-start
+    hide(collect_spec); hide(mm_spec); hide(wf_forest); hide(forest_covered); hide(forest_endpoint); hide(forest_size); hide(parts_wf); hide(parts_on_b); hide(all_el_wf); hide(count_elements); hide(mm_post); hide(strategies_ok); hide(strategies_bounded); hide(markers_sorted); hide(pairs_consistent); hide(crate::tokenizer_fns::tok_chain); hide(crate::tokenizer_fns::toks_ok); hide(crate::tokenizer_fns::tokenize_spec); hide(crate::stack_parse); hide(crate::gp); hide(crate::flatten); hide(configured); hide(lf_positions); hide(front_end); hide(markers_renderable); hide(marker_ok); hide(list_item_ok); hide(forest_on_b); hide(merge_all_final);
+    let ghost b = encode_utf8(content@);
+    let ghost __cfg = config;
+    let ghost __ds = delimiters.0@;
+    let ghost __de = delimiters.1@;
+    proof { encode_utf8_valid_utf8(content@); axiom_rc_string_len_isize(content); }
+//@at before "let parsed = parser::parse"
+    proof { crate::axiom_token_vec_len(&tokens); }
+//@at before "let remover = build_remover"
+    proof {
+        crate::parser_fns::lemma_toks_seq_ok_all(tokens@, content@);
+        assert(toks_seq_ok(tokens@, b));
+        assert(tokens@.subrange(0, tokens@.len() as int) =~= tokens@);
+        lemma_parts_from_flatten(parsed@, tokens@, b, 0, tokens@.len() as int);
+        reveal(parts_wf);
+        assert(parts_wf(parsed@, 0, b.len() as int) && parts_on_b(parsed@, b) && all_el_wf(parsed@));
+    }
+//@at before "let markers = remover.build_remove_marker_all(&parsed);"
+    let ghost parts = parsed@;
+    let ghost f0 = collect_spec(remover, parts, true).0;
+    let ghost f1 = collect_spec(remover, parts, true).1;
+    proof {
+        lemma_collect_wf(remover, parts, true, 0, b.len() as int);
+        lemma_collect_on_b(remover, parts, true, b);
+        lemma_collect_size(remover, parts, true);
+        lemma_count_elements(parts, 0, b.len() as int);
+        assert(wf_forest(f0, -1, b.len() as int + 1));
+        assert(wf_forest(f1, -1, b.len() as int + 1));
+        lemma_markers_ok(f0, b, -1, b.len() as int + 1);
+        lemma_markers_ok(f1, b, -1, b.len() as int + 1);
+        lemma_merge_all_final_renderable(b, mm_spec(f0), mm_spec(f1));
+        lemma_front_end(content@, __ds, __de, __cfg, tokens@, remover, parts);
+    }
+//@at before "match format {"
+    proof {
+        assert(markers@ == merge_all_final(mm_spec(f0), mm_spec(f1)));
+        assert(markers_renderable(b, markers@));
+        assert(line_map@ == lf_positions(content@, content@.len() as int));
+        lemma_line_map_len(content@);
+    }
+//@end
 } // mod chiritori
